@@ -1,0 +1,73 @@
+//go:build verif
+
+// Machine-checked contracts for property C05 (every call ends in one outcome
+// by its deadline): the part this technique can carry is a blocking-effect
+// discipline. `effect bounded` = every wait inside the function is a select
+// with a ctx.Done() case, a lock whose critical sections never block
+// (`lockclass ... nonblocking`), or a call to a function that is itself
+// bounded or non-blocking. Comments only.
+
+package tchannel
+
+// Critical sections of these locks never block (checked in every function
+// under contract that takes them): waiting for them is bounded.
+//@ lockclass Peer.RWMutex nonblocking
+//@ lockclass Connection.stateMut nonblocking
+//@ lockclass messageExchangeSet.RWMutex nonblocking
+//@ lockclass Channel.mutable.RWMutex nonblocking
+//@ lockclass RootPeerList.RWMutex nonblocking
+//@ lockclass PeerList.RWMutex nonblocking
+
+// Connecting is bounded by the context it is given (dial and handshake take
+// the context; see C13 for the handshake deadline).
+//@ iface Connectable.Connect(ctx context.Context, hostPort string) (c *Connection, err error)
+//@   effect bounded
+//@   modifies all
+
+//@ func (p *Peer) Connect(ctx context.Context) (c *Connection, err error)
+//@   nosafety
+//@   effect bounded
+//@   modifies all
+//@   property C05
+
+// Waiting for the per-peer connection-creation lock gives up when the caller's
+// context is done.
+//@ func (p *Peer) lockNewConn(ctx context.Context) (err error)
+//@   nosafety
+//@   effect bounded
+//@   modifies nothing
+//@   property C05
+
+// (receives from the one-slot semaphore the caller holds: cannot block; assumed)
+//@ func (p *Peer) unlockNewConn()
+//@   trusted
+//@   effect nonblocking
+//@   modifies nothing
+
+//@ func (c *Connection) IsActive() (ok bool)
+//@   effect nonblocking
+//@   property C05
+
+//@ func (c *Connection) readState() (s connectionState)
+//@   effect nonblocking
+//@   property C05
+
+//@ func (p *Peer) getActiveConn() (c *Connection, ok bool)
+//@   nosafety
+//@   effect nonblocking
+//@   modifies all
+//@   property C05
+
+// Time spent waiting for or establishing a connection counts against the
+// caller's deadline: no wait in GetConnection is unbounded.
+//@ func (p *Peer) GetConnection(ctx context.Context) (c *Connection, err error)
+//@   nosafety
+//@   effect bounded
+//@   modifies all
+//@   property C05
+
+//@ func (p *Peer) getConnectionRelay(callTimeout time.Duration, relayMaxConnTimeout time.Duration) (c *Connection, err error)
+//@   nosafety
+//@   effect bounded
+//@   modifies all
+//@   property C05
